@@ -5,7 +5,7 @@ import signal
 import cfgutil as C
 from lib import coq_list as L, coq_nat as N
 
-THEOREMS = ['C08_valid_prefix', 'C08_expected_sound', 'C08_expected_complete', 'C08_first_offending_token',
+THEOREMS = ['C08_valid_prefix', 'C08_expected_sound', 'C08_expected_complete', 'C08_first_offending_token', 'C08_model_expected_exact',
             'C08_example']
 GEN_DEPS = []
 RULE = ('random CFGs with every rule productive (<=4 non-terminals, <=3 single-character terminals, nullable / recursive / '
@@ -84,6 +84,10 @@ def check_rejection(ctx, rules, ts, g, parser, lexer, p, toks, text, exotic=Fals
         legal_end = False
     if parser == 'earley' and lexer != 'basic':
         got = set(getattr(err, 'allowed', None) or getattr(err, 'expected', None) or [])
+        if hasattr(ctx, 'exp_cases') and all(t in ts for t in toks[:pos]) and got <= set(ts) and len(ctx.exp_cases) < ctx.scale(500, 5000):
+            # model tie: the expected set of the executable Earley model on the consumed tokens (evaluated in Coq)
+            ctx.exp_cases.append(coq_expected_case(rules, ts, toks[:pos], got))
+            ctx.exp_meta.append(dict(grammar=g, parser=parser, lexer=lexer, text=text, consumed=pos, observed=sorted(got)))
         if got != legal:
             return 'dynamic Earley: expected/allowed %s but the terminals that can come next are %s' % (sorted(got), sorted(legal))
     elif parser == 'earley':
@@ -121,9 +125,29 @@ def lalr_conflict_free(rules, ts):
         return False
 
 
+IMPORTS = 'From LV Require Import Cfg.Grammar Earley.Alg Earley.Expected.'
+
+
+def coq_expected_case(rules, ts, toks, observed):
+    nts = []
+    for a, _ in rules:
+        if a not in nts:
+            nts.append(a)
+    nid = {a: i for i, a in enumerate(nts)}
+    tid = {t: i for i, t in enumerate(ts)}
+
+    def sym(x):
+        return '(NT %d)' % nid[x] if x in nid else '(T %d)' % tid[x]
+    rl = L(['(%d, %s)' % (nid[a], L([sym(x) for x in rhs]) if rhs else '@nil symbol') for a, rhs in rules])
+    return '(%s, %d, %s, %s)' % (rl, nid['start'],
+                                 L([str(tid[t]) for t in toks]) if toks else '@nil nat',
+                                 L([str(tid[t]) for t in sorted(observed)]) if observed else '@nil nat')
+
+
 def correspond(ctx):
     from lark.exceptions import GrammarError
     rng = ctx.rng
+    ctx.exp_cases, ctx.exp_meta = [], []
     ngr = ctx.scale(70, 700) * (2 if ctx.widen else 1)
     sampled = 0
     for gi in range(ngr):
@@ -176,6 +200,14 @@ def correspond(ctx):
                 if msg:
                     ctx.violation('rejection', {'grammar': g, 'parser': parser, 'lexer': lexer, 'text': text,
                                                 'rules': [[a, list(r)] for a, r in rules], 'terminals': ts_used}, True, msg)
+    bad, errs = ctx.coq_bad_indices('c08exp', IMPORTS, 'expected_check', ctx.exp_cases, chunk=300)
+    for e in errs:
+        ctx.violation('correspondence:coq-eval', {'error': e}, False, e[:300])
+    for i in bad:
+        m = ctx.exp_meta[i]
+        ctx.violation('correspondence:Earley/Expected.expected_at vs UnexpectedCharacters.allowed',
+                      dict(m, no_longer_checks='expected set of the Earley model vs lark'), False,
+                      'model and lark disagree on the expected set after %d tokens of %r (the viable-prefix oracle agrees with lark)' % (m['consumed'], m['text']))
     custom_lexer_stream(ctx)
     # CYK: ParseError, never something else
     try:
